@@ -1,0 +1,21 @@
+//go:build verif
+
+package litefs
+
+import (
+	"io"
+
+	"github.com/superfly/litefs/internal"
+	"github.com/superfly/litefs/internal/chunk"
+)
+
+// VerifChunkReader exposes internal/chunk.NewReader to the verification harness.
+func VerifChunkReader(r io.Reader) io.Reader { return chunk.NewReader(r) }
+
+// VerifChunkWriter exposes internal/chunk.NewWriter to the verification harness.
+func VerifChunkWriter(w io.Writer) io.WriteCloser { return chunk.NewWriter(w) }
+
+// VerifReadFullAt exposes internal.ReadFullAt to the verification harness.
+func VerifReadFullAt(r io.ReaderAt, buf []byte, off int64) (int, error) {
+	return internal.ReadFullAt(r, buf, off)
+}
